@@ -77,6 +77,29 @@ def frame(pos, comp):
     return [pos[a - 1] for a in ids]
 
 
+def ref_copies(comp):
+    """rmsd::init_permutation: one copy of the reference per atomPermutation line, copy[ia] = ref[perm[ia]]"""
+    return [[comp["refs"][j] for j in perm] for perm in comp.get("perms", [])]
+
+
+def evec_eff(comp):
+    """the vector eigenvector::init ends up with (before the model's own centring, which is then a no-op):
+    centred; differenceVector: (v - <v>) - (ref - <ref>) scaled by 1/|.|^2; normalizeVector: scaled to unit norm"""
+    N = len(comp["ids"])
+    opt = comp.get("evopt") or ""
+    vc = cog(comp["evec"], range(1, N + 1))
+    e = [vsub(v, vc) for v in comp["evec"]]
+    if "difference" in opt:
+        rc = cog(comp["refs"], range(1, N + 1))
+        e = [vsub(a, vsub(r_, rc)) for a, r_ in zip(e, comp["refs"])]
+    n2 = sum(vdot(v, v) for v in e)
+    if "normalize" in opt:
+        e = [vsc(1.0 / math.sqrt(n2), v) for v in e]
+    elif "difference" in opt:
+        e = [vsc(1.0 / n2, v) for v in e]
+    return e
+
+
 def unit_axis(ax):
     n2 = vdot(ax, ax)
     if n2 != 1.0:
@@ -137,12 +160,19 @@ def geom(case, comp, pos):
         x = math.sqrt(sum(vdot(p, p) for p in fp) / N)
         return x, ((3.0 * N - 4.0) / x if x else 0.0), x
     if k == "rmsd":
-        x = math.sqrt(sum(vdot(vsub(p, r), vsub(p, r)) for p, r in zip(fp, comp["refs"])) / N)
+        best = sum(vdot(vsub(p, r), vsub(p, r)) for p, r in zip(fp, comp["refs"]))
+        comp["_best"] = 0
+        for ci, cp in enumerate(ref_copies(comp)):
+            v = sum(vdot(vsub(p, r), vsub(p, r)) for p, r in zip(fp, cp))
+            if abs(v - best) < 1e-9 * max(1.0, best):
+                AMBIG[0] = True          # two copies of the reference equally close: the selection is ambiguous
+            if v < best:
+                best, comp["_best"] = v, ci + 1
+        x = math.sqrt(best / N)
         tr = 3.0 if comp.get("center") else 0.0
         return x, ((3.0 * N - 1.0 - tr) / x if x > 0 else 0.0), x
     if k == "eigenvector":
-        ec = cog(comp["evec"], range(1, N + 1))
-        e = [vsub(v, ec) for v in comp["evec"]]
+        e = evec_eff(comp)
         x = sum(vdot(vsub(p, r), v) for p, r, v in zip(fp, comp["refs"], e))
         return x, 0.0, math.sqrt(sum(vdot(v, v) for v in e))
     raise ValueError(k)
@@ -230,8 +260,14 @@ def comp_block(comp, single):
             extra.append("refPositions " + " ".join(vtxt(v) for v in comp["gref"]))
         L += group_block("atoms", {"ids": comp["ids"]}, extra)
         L.append("    refPositions " + " ".join(vtxt(v) for v in comp["refs"]))
+        for perm in comp.get("perms", []):
+            L.append("    atomPermutation " + " ".join(str(comp["ids"][j]) for j in perm))
         if k == "eigenvector":
             L.append("    vector " + " ".join(vtxt(v) for v in comp["evec"]))
+            if "difference" in (comp.get("evopt") or ""):
+                L.append("    differenceVector on")
+            if "normalize" in (comp.get("evopt") or ""):
+                L.append("    normalizeVector on")
     if comp.get("onesite"):
         L.append("    oneSiteTotalForce on")
     L.append("  }")
@@ -397,13 +433,16 @@ def comp_txt(comp):
     if k == "gyration":
         return "GY " + ids
     if comp.get("rotate"):
-        return ("RMR %s %s" % (ids, vl(comp["refs"]))) if k == "rmsd" else ("EVR %s %s %s" % (ids, vl(comp["refs"]), vl(comp["evec"])))
+        cps = ref_copies(comp)
+        return ("RMR %s %s %d %s" % (ids, vl(comp["refs"]), len(cps), " ".join(vl(c) for c in cps))) if k == "rmsd" \
+            else ("EVR %s %s %s" % (ids, vl(comp["refs"]), vl(evec_eff(comp))))
     cen = "N"
     if comp.get("center"):
         cen = "C " + vl([cog(comp["gref"], range(1, len(comp["ids"]) + 1))])
     if k == "rmsd":
-        return "RM %s %s %s" % (ids, vl(comp["refs"]), cen)
-    return "EV %s %s %s %s" % (ids, vl(comp["refs"]), vl(comp["evec"]), cen)
+        cps = ref_copies(comp)
+        return "RM %s %s %d %s %s" % (ids, vl(comp["refs"]), len(cps), " ".join(vl(c) for c in cps), cen)
+    return "EV %s %s %s %s" % (ids, vl(comp["refs"]), vl(evec_eff(comp)), cen)
 
 
 def model_line(case, isteps):
@@ -471,6 +510,17 @@ def split_groups(r, atoms, ng, maxsize=3):
     return out, atoms[p:]
 
 
+def rand_perm(r, k):
+    """a non-identity permutation of k positions: a transposition or a 3-cycle (equivalent atoms exchanged)"""
+    p = list(range(k))
+    idx = r.sample(range(k), 3 if (k >= 3 and r.random() < 0.4) else 2)
+    vals = [p[i] for i in idx]
+    vals = vals[1:] + vals[:1]
+    for i, v in zip(idx, vals):
+        p[i] = v
+    return p
+
+
 def gen_comp(r, kind, atoms, overlap=False):
     """a component of the given kind over (a subset of) the given atoms; returns (comp, unused atoms)"""
     c = {"kind": kind, "coeff": 1.0}
@@ -509,6 +559,9 @@ def gen_comp(r, kind, atoms, overlap=False):
         c["gref"] = [list(v) for v in c["refs"]] if (r.random() < 0.75 and not overlap) else [rpos(r) for _ in range(k)]
     if kind == "eigenvector":
         c["evec"] = [[V.dyadic(r, -2, 2, bits=3) for _ in range(3)] for _ in range(k)]
+        c["evopt"] = r.choice([None, None, "normalize"] + (["difference", "difference+normalize"] if c["center"] and c["gref"] == c["refs"] else []))
+    if kind == "rmsd" and r.random() < 0.5:
+        c["perms"] = [rand_perm(r, k) for _ in range(r.randint(1, 2))]
     return c, rest
 
 
@@ -633,15 +686,23 @@ def rot_case(r, kind):
     cc["refs"] = [rpos(r) for _ in range(k)]
     cc["center"], cc["rotate"] = False, True
     cc.pop("gref", None)
+    cc.pop("perms", None)
+    cc.pop("evopt", None)
     if kind == "eigenvector":
         cc["evec"] = [[V.dyadic(r, -2, 2, bits=3) for _ in range(3)] for _ in range(k)]
+        cc["evopt"] = r.choice([None, "normalize"])
+    near = cc["refs"]
+    if kind == "rmsd" and r.random() < 0.6:
+        cc["perms"] = [rand_perm(r, k) for _ in range(r.randint(1, 2))]
+        if r.random() < 0.6:          # the atoms sit near a permuted copy: equivalent atoms have exchanged places
+            near = r.choice(ref_copies(cc))
     T = r.choice([0.0, 0.0, 300.0])
     c.update({"type": "ROT", "T": T, "invok": T == 0.0, "hide": False if T == 0.0 else c["hide"]})
     c.pop("late", None)
     if c["bias"]["type"] == "harmonic":
         c["bias"] = {"type": "linear", "k": V.dyadic(r, 1, 4, bits=2)}
     z = [[0.0, 0.0, 0.0] for _ in range(n)]
-    P = [[vadd(cc["refs"][a] if a < k else rpos(r), [V.dyadic(r, -1, 1, bits=4) for _ in range(3)]) for a in range(n)] for _ in range(2)]
+    P = [[vadd(near[a] if a < k else rpos(r), [V.dyadic(r, -1, 1, bits=4) for _ in range(3)]) for a in range(n)] for _ in range(2)]
     if c["same"]:
         c["steps"] = [{"pos": P[0], "ef": z}, {"pos": P[0], "ef": {"back": 1.0}}, {"pos": P[1], "ef": z}, {"pos": P[1], "ef": {"back": 1.0}}]
     else:
@@ -857,6 +918,14 @@ def process(run, runner, cases, sample=0):
         run.dist("mode:%s" % mode)
         for cc in c["comps"]:
             run.dist("kind:%s%s" % (cc["kind"], ":onesite" if cc.get("onesite") else ""))
+            if cc.get("perms"):
+                run.dist("rmsd:atomPermutation%s" % (":rotated" if cc.get("rotate") else ""))
+                if not cc.get("rotate"):
+                    for st in c["steps"]:
+                        geom(c, cc, st["pos"])
+                        run.dist("rmsd:closest-copy:%s" % ("identity" if cc.pop("_best", 0) == 0 else "permuted"))
+            if cc.get("evopt"):
+                run.dist("eigenvector:%s" % cc["evopt"])
         cs = impl.get(k)
         rp = {"kind": "scenario", "case": c, "scenario": scenario(c, 0)}
         if k in crashed:
